@@ -9,7 +9,7 @@ func init() {
 			"the keeper passes to the state-change helpers the values it gave to / received from the pool model; the taker fee is the exact difference between what the trader pays and what reaches the pool, and exactly that fee is sent to the collector; the router hands the pool the after-fee coin.",
 		NotCovered:  []string{"bank balance = reported reserves over histories (direct sends are allowed by the statement)", "supply of non-share tokens (bank module semantics)", "cosmwasm pools", "pool-model internals (C04)"},
 		Assumptions: []string{"bank keeper MintCoins/BurnCoins/SendCoins semantics"},
-		MinObl:      61,
+		MinObl:      70,
 		Run:         runC02,
 	})
 }
@@ -17,10 +17,8 @@ func init() {
 func runC02(c *rules.Ctx) {
 	const K = "x/gamm/keeper.Keeper."
 	// ---- swap
-	const US = K + "updatePoolForSwap"
-	c.CheckedCall(US, "gammkeeper.Keeper.setPool", []string{"k", "ctx", "pool"}, "the updated pool record is persisted", "")
-	c.CheckedCall(US, "gammtypes.BankKeeper.SendCoins", []string{"_", "ctx", "sender", "poolmanagertypes.PoolI.GetAddress(pool)", "list(tokenIn)"}, "exactly token-in moves from the trader to the pool account", "/in")
-	c.CheckedCall(US, "gammtypes.BankKeeper.SendCoins", []string{"_", "ctx", "poolmanagertypes.PoolI.GetAddress(pool)", "sender", "list(tokenOut)"}, "exactly token-out moves from the pool account to the trader", "/out")
+	gammSwapSettleRules(c)
+	gammStateChangeCheckedRules(c)
 	const SI = K + "SwapExactAmountIn"
 	c.Let("OUTCOIN", "gammtypes.CFMMPoolI.SwapOutAmtGivenIn(gammkeeper.asCFMMPool(pool)#0, ctx, list(tokenIn), tokenOutDenom, spreadFactor)#0")
 	c.CheckedCallOpt(SI, "gammkeeper.Keeper.updatePoolForSwap", []string{"k", "ctx", "pool", "sender", "tokenIn", "{OUTCOIN}"}, "the coins moved are the caller's token-in and the coin the pool model returned for it", "", false)
@@ -55,6 +53,12 @@ func runC02(c *rules.Ctx) {
 	c.PairedArgN(K+"JoinSwapShareAmountOut", "gammtypes.PoolAmountOutExtension.IncreaseLiquidity", "gammkeeper.Keeper.applyJoinPoolStateChange", "exact-shares join: the shares and coins booked on the pool are the ones minted and moved")
 	c.PairedArgN(K+"ExitPool", "gammtypes.CFMMPoolI.ExitPool", "gammkeeper.Keeper.applyExitPoolStateChange", "exit: coins paid out = coins the pool model returned for the shares burned")
 	c.PairedArgN(K+"ExitSwapExactAmountOut", "gammtypes.PoolAmountOutExtension.ExitSwapExactAmountOut", "gammkeeper.Keeper.applyExitPoolStateChange", "single-asset exit: shares burned = shares the pool model returned; coin paid = coin given to it")
+	// ---- pool creation: the declared initial liquidity really reaches the pool account
+	const CP = "x/poolmanager.Keeper.CreatePool"
+	c.CheckedCall(CP, "poolmanagertypes.BankI.SendCoins", []string{"k.bankKeeper", "ctx", "poolmanagertypes.CreatePoolMsg.PoolCreator(msg)", "poolmanagertypes.PoolI.GetAddress(poolmanager.Keeper.createPoolZeroLiquidityNoCreationFee(k,ctx,msg)#0)", "poolmanagertypes.CreatePoolMsg.InitialLiquidity(msg)"},
+		"pool creation moves exactly the declared initial liquidity from the creator to the new pool's account, and fails when that transfer fails", "")
+	c.CheckedCall(CP, "poolmanager.Keeper.createPoolZeroLiquidityNoCreationFee", []string{"k", "ctx", "msg"}, "a failed pool construction fails the creation", "")
+	c.Returns(CP, 0, "poolmanagertypes.PoolI.GetId(poolmanager.Keeper.createPoolZeroLiquidityNoCreationFee(k,ctx,msg)#0) | 0", "the reported id is the created pool's", "/id")
 	// ---- taker fee arithmetic (poolmanager)
 	const PM = "x/poolmanager."
 	c.Returns(PM+"CalcTakerFeeExactIn", 1, "with:Amount(_, sdkmath.Int.Sub(tokenIn.Amount, sdkmath.LegacyDec.TruncateInt(_)))", "exact-in: fee = amount paid − amount after fee (exact difference)", "/fee")
